@@ -33,6 +33,9 @@ impl Prop for Dispatch {
         cfg.enums = false;
         cfg.ext_vals = false;
         cfg.singletons = false;
+        if t.chance(1, 4) {
+            cfg.packed_den = 2;
+        }
         let (mut prog, _, _) = gen_prog(t, cfg);
         if t.chance(1, 5) {
             name_member_vftable(t, &mut prog);
